@@ -1,19 +1,101 @@
-"""Per-property composition of the check: Lean modules (obligations), correspondence modules (tie), oracle (search)."""
-from framework import Spec
+"""Per-property composition of the check: Lean modules (obligations), correspondence modules (tie), oracle (search).
+
+A Lean / correspondence module listed here is used only if its file exists; a property is claimed (appears in
+MANIFEST.json) only when at least one property module and its oracle exist.
+"""
+import os
+from framework import Spec, LEAN, HARNESS
 
 P = {}
+PLANNED = {}
 
 
-def add(*a, **k):
-    s = Spec(*a, **k); P[s.pid] = s
+def _lean_exists(m): return os.path.exists(os.path.join(LEAN, m.replace('.', '/') + '.lean'))
+def _py_exists(m): return os.path.exists(os.path.join(HARNESS, m.replace('.', '/') + '.py'))
 
 
-add('C13', ['MdVerif.Props.C13'], ['MdVerif.Audit.C13'], corr=['corr.registry'], oracle='oracle.c13',
-    technique='Lean 4 refinement proof (registry model refines the registration-log spec for every op history) + op-sequence correspondence with util.Registry',
-    partial='Priorities are modelled as integers (the harness scales binary-fraction floats); NaN priorities and str items are outside the domain.')
+def add(pid, props, corr, technique, partial, extra_trusted=()):
+    props = ['MdVerif.Props.' + p for p in props]
+    have = [p for p in props if _lean_exists(p)]
+    audits = [p.replace('.Props.', '.Audit.') for p in have]
+    corr = [c for c in corr if _py_exists(c)]
+    oracle = 'oracle.' + pid.lower()
+    PLANNED[pid] = {'props': props, 'missing': [p for p in props if p not in have]}
+    if have and _py_exists(oracle):
+        P[pid] = Spec(pid, have, audits, corr=corr, oracle=oracle, partial=partial, technique=technique, extra_trusted=list(extra_trusted))
+
+
+PIPE = ['corr.pipeline', 'corr.block', 'corr.inline']
+
+add('C01', ['C01Spec', 'C01'], ['corr.doc'] + PIPE,
+    'Lean 4: specification `spec : Doc → html` of the construct grammar + print; theorems on the pipeline model for sub-grammars; spec and model both tied to the implementation by correspondence',
+    'PARTIAL: the print-then-parse theorem is proved only for the sub-grammar named in Props/C01*.lean; for the rest of the grammar the Lean `spec` is compared with the implementation by correspondence and search only.')
+add('C02', ['C02Block', 'C02Inline'], PIPE + ['corr.extract', 'corr.code'],
+    'Lean 4 termination proofs: the fuel bounds of the block parser (and of the inline engine) always suffice — `parseDocument` is total for every input; total pipeline model tied by end-to-end correspondence; broad search for exceptions/timeouts',
+    'PARTIAL: proved for the core pipeline model on text without `<`; the stdlib HTML tokenizer, unmodelled extensions and CPython\'s recursion limit (F-C02-3) are outside the theorems — for them only the search speaks.')
+add('C03', ['C03Code', 'C03'], ['corr.code'] + PIPE,
+    'Lean 4 proofs: code_escape composed with the serializer escapes exactly once and reads back to the body (for all strings); fenced-code recogniser/stash theorems; code text carried through the pipeline model',
+    'PARTIAL: the stdlib tokenizer is not modelled (F-C03-1 lives there); "whatever surrounds the code" is proved for the placements named in Props/C03*.lean, the others are covered by correspondence and search.')
+add('C04', ['C04'], ['corr.extract'],
+    'Lean 4 proofs over an event-level model of HTMLExtractor (state machine over tokenizer events) and of the raw-HTML restore: a balanced block is stashed verbatim exactly once and restored unwrapped; events recorded from the real parser are replayed in the model',
+    'PARTIAL: the stdlib tokenizer that produces the events is trusted, not modelled (F-C04-1 lives there); blocks starting while `intail`, md_in_html and multi-pass restore are covered by correspondence/search only.')
+add('C05', ['C05Block', 'C05', 'C14'], PIPE + ['corr.serializer'],
+    'Lean 4 proofs: vocabulary/void invariant of every tree the block (and inline) model builds + serializer round-trip theorem (strict reader accepts the output and reads back the tree)',
+    'PARTIAL: the composition to the final output string is proved as far as Props/C05*.lean state; the `&`/entity-stash case rests on correspondence. "Entity reference" is read as the code reads it (digit-initial names allowed).')
+add('C06', ['C06Block', 'C06Inline', 'C06'], PIPE,
+    'Lean 4 conservation invariants: letters(tree) ++ letters(pending blocks) is constant through every block processor; inline patterns conserve the flattened text',
+    'PARTIAL: block half and inline half proved separately as far as Props/C06*.lean state; `isLetter` is an arbitrary class disjoint from markup characters.')
+add('C07', ['C07Block', 'C07'], PIPE + ['corr.normalize'],
+    'Lean 4 proof on the pipeline model: a text in which every character of the GENERATED ESCAPED_CHARS table is backslash-escaped parses to a single paragraph (all recognisers proved inert) and renders as itself; table membership discharged by decide over the regenerated table',
+    'PARTIAL until Props/C07.lean carries the end-to-end theorem; extensions that extend the escapable set (tables, smarty) are covered for the block stage by the `extra` parameter, smarty only by search.')
+add('C08', ['C08Block', 'C08Inline', 'C08'], PIPE,
+    'Lean 4 locality proofs on the block model (processors never look past blocks[0]; the parent is read only through its last child) and stash-counter independence of the inline model',
+    'PARTIAL: as far as Props/C08*.lean state; the composition of both halves rests on correspondence where not proved.')
+add('C09', ['C09'], ['corr.normalize', 'corr.pipeline'],
+    'Lean 4 proofs about the model of NormalizeWhitespace (line endings, tabs, STX/ETX, whitespace-only lines, leading/trailing blank lines), stated for the step list regenerated from the source; unit correspondence for tab lengths 0-8',
+    'PARTIAL: the normalisation theorems are full; the lift "the rest of convert reads only the normalised text" is by construction of the pipeline model and end-to-end correspondence. F-C09-1 (whitespace-only first line) is a kernel-checked counterexample.')
+add('C10', ['C10', 'C09'], PIPE,
+    'Lean 4 proofs: input cannot forge placeholders (normalisation strips STX/ETX), post-conditions of every restore step, placeholder invariants of the inline model on the pattern subset that cannot leak; the model leaks where the code leaks (kernel-checked)',
+    'PARTIAL: link/reference/image/autolink/html/entity patterns and extensions are outside the proved subset (F-C10-1/2/3 live there).')
+add('C11', ['C11', 'C11Census'], [],
+    'Lean 4 frame theorem on an abstract instance state machine (reset re-establishes the fresh state for every non-raising history) + census theorems decided by the kernel over tables regenerated from the source AST: every conversion-time write to instance state is re-initialised by reset() or on a justified allow-list',
+    'PARTIAL: the abstract model takes `convert` as a parameter; that the census categories are the right reading of the code is checked dynamically by the oracle (fresh vs reset instances, attribute census). F-C11-1 is the kernel-checked NoRaise counterexample.')
+add('C12', ['C12', 'C11Census'], [],
+    'Lean 4 schedule-independence theorem for confined threads over read-only/memo shared cells (every interleaving = sequential run) + kernel-decided census over the regenerated table of run-time writes to module/class-level state (must be on the memo allow-list)',
+    'PARTIAL: CPython/GIL atomicity, `re` cache, importlib locks, xml.etree internals are trusted; a theorem about this model cannot exhibit a data race inside the interpreter. Threaded runs are the search.')
+add('C13', ['C13'], ['corr.registry'],
+    'Lean 4 refinement proof (registry model refines the registration-log spec for every op history) + op-sequence correspondence with util.Registry',
+    'Priorities are modelled as integers (the harness scales binary-fraction floats); NaN priorities and str items are outside the domain.')
+add('C14', ['C14'], ['corr.serializer', 'corr.pipeline'],
+    'Lean 4 proofs for all strings and trees: escape/read-back, idempotence, entity pass-through, serialise-then-strict-read round trip in both formats, html/xhtml read back equal',
+    'Tree level full; document level PARTIAL (the format leaks into stashed HTML through md.serializer inside HtmlInlineProcessor.unescape, toc, md_in_html): checked by correspondence and search. F-C14-1 (void element with text) is a kernel-checked counterexample.')
+add('C15', ['C15'], PIPE,
+    'Lean 4 proofs on the block model: the reference-definition recogniser accepts every title spelling, a definition adds exactly one map entry and no node, position independence, label normalisation',
+    'PARTIAL: the rendering of the resolved link (inline stage) rests on correspondence where not proved.')
+add('C16', ['C16Tables', 'C16Triggers', 'C16AttrList', 'C16Fenced', 'C16BlockExt'],
+    ['corr.tables', 'corr.triggers', 'corr.attrlist', 'corr.code', 'corr.blockext', 'corr.dispatch'],
+    'Lean 4 proofs: table cell splitting/row width/alignment theorems, attribute-list print/parse round trip, entry recognisers of every extension need their trigger + dispatcher inertness theorem (non-interference), fenced-code inertness',
+    'PARTIAL: md_in_html, smarty, codehilite, meta, legacy_* are not modelled (search only); documented rendering is proved per component, compositions by correspondence/search.')
+add('C17', ['C17'], ['corr.toc'],
+    'Lean 4 proofs: unique() fresh + terminating (pigeonhole), assigned ids pairwise distinct, nest_toc_tokens flatten/outline theorems for all level sequences, footnote id bookkeeping (refs resolve, k refs → k distinct back-links)',
+    'slugify and inline rendering of titles are parameters (theorems hold for every slugify); F-C17-1/2 are kernel-checked counterexamples.')
+add('C18', ['C18', 'C18Stash'], ['corr.dispatch', 'corr.inline', 'corr.registry'],
+    'Lean 4 proofs: dispatcher order = registry view (C13), run()->False falls through, order facts decided over the regenerated registration table; AtomicString skip and htmlStash restore theorems on the tree/post-processor models',
+    'PARTIAL: a third-party processor can do anything; the contract is proved for the core pipeline\'s treatment of what a probe inserts. F-C18-1..4 (bundled tree processors re-reading atomic text) are known findings.')
+add('C19', ['C19'], ['corr.config'],
+    'Lean 4: name resolution decided by the kernel over the regenerated entry-point/makeExtension tables; parseBoolValue and setConfig laws',
+    'PARTIAL: importlib/entry-point discovery trusted; that equal class + equal config give equal conversions is determinism (C11).')
+add('C20', ['C20'], ['corr.codec'],
+    'Lean 4 proofs: codec round trips (ASCII, Latin-1, UTF-8), xmlcharrefreplace totality, BOM stripping, CLI option print/parse round trip',
+    'PARTIAL: codecs, files and standard streams are trusted; other encodings by correspondence/search only. F-C20-1 (stdin ignores encoding).')
 
 BUDGETS = {
     'C13': {'corr': 3000, 'search': 2000, 'search_broken': 30000},
+    'C09': {'corr': 1500, 'search': 1500},
+    'C14': {'corr': 1500, 'search': 1500},
+    'C17': {'corr': 1500, 'search': 1000},
+    'C16': {'corr': 800, 'search': 1200},
+    'C02': {'corr': 2500, 'search': 3000},
 }
 
 # level texts for MANIFEST.level_claimed.text (own words per property)
